@@ -53,7 +53,9 @@ BASES = {
     "special-characters": cal(["BEGIN:VEVENT", "UID:16", "SUMMARY:a\u2028b\u0085c\x0bd\x1ce\ufefff\u00a0", "LOCATION;X-P=p\u2028q:\ufeffstart",
                                "DESCRIPTION:lone\rCR and tab\there \u2029 end\u00a0",
                                # text that is not in Unicode NFC stays as written (bytes and str input alike)
-                               "COMMENT;X-N=Ame\u0301lie:Cafe\u0301 \u212b \u2126 \uf900", "END:VEVENT"]),
+                               "COMMENT;X-N=Ame\u0301lie:Cafe\u0301 \u212b \u2126 \uf900", 
+                               # values the reader rewrites (literal %2C %3A %3B %5C): the same rewriting whatever the case of the NAME
+                               "URL:https://example.com/search?q=is%3Aopen&labels=bug%2Cparser", "X-PCT:a%3Bb%5Cc", "END:VEVENT"]),
     "journal-escapes": cal(["BEGIN:VJOURNAL", "UID:14", "DTSTAMP:20240101T000000Z", "DESCRIPTION:line one\\nline two\\; semi\\, comma", "SUMMARY:plain", "END:VJOURNAL"]),
 }
 CASINGS = ("none", "lower", "title", "alt")
